@@ -4,6 +4,7 @@ import Driver.Cache
 import Driver.Bytes
 import Driver.Watch
 import Driver.Src
+import Driver.Iso
 /-!
 # amdrv — the model driver
 
@@ -18,6 +19,7 @@ structure Engines where
   bytes : Driver.Bytes.St := {}
   watch : Driver.Watch.St := {}
   src : Driver.Src.St := {}
+  iso : Driver.Iso.St := {}
 
 def dispatch (e : Engines) (ws : List String) : Engines × String :=
   match ws with
@@ -30,6 +32,7 @@ def dispatch (e : Engines) (ws : List String) : Engines × String :=
     else if w.startsWith "by." then let (s, o) := Driver.Bytes.step e.bytes ws; ({ e with bytes := s }, o)
     else if w.startsWith "watch." then
       let (s, o) := Driver.Watch.step e.watch ws; ({ e with watch := s }, o)
+    else if w.startsWith "iso." then let (s, o) := Driver.Iso.step e.iso ws; ({ e with iso := s }, o)
     else if w.startsWith "s." then let (s, o) := Driver.Src.stepAll e.src ws; ({ e with src := s }, o)
     else
       let (s, o) := Driver.Cache.step e.cache ws; ({ e with cache := s }, o)
